@@ -121,6 +121,10 @@ func (h *histRun) edit(i int, op *opSpec) error {
 }
 
 func (h *histRun) build(i int, op *opSpec, pc procCfg, hook func(step int, kind, detail string)) *procResult {
+	return h.buildNamed(fmt.Sprintf("%sop%d", h.prefix, i), i, op, pc, hook)
+}
+
+func (h *histRun) buildNamed(name string, i int, op *opSpec, pc procCfg, hook func(step int, kind, detail string)) *procResult {
 	h.w.op = i
 	h.w.failing = map[string]bool{}
 	for _, f := range op.Fail {
@@ -129,7 +133,7 @@ func (h *histRun) build(i int, op *opSpec, pc procCfg, hook func(step int, kind,
 	h.w.written = map[string]string{}
 	bo := buildOpts{Label: op.Label, Always: op.Always, DryRun: op.Dry, Args: h.p.args(), PreferIndex: op.Index, SecondRun: op.Twice,
 		LoadOnly: op.Op == "load-only", GC: op.Op == "gc"}
-	res := h.w.process(fmt.Sprintf("%sop%d", h.prefix, i), pc, bo, hook)
+	res := h.w.process(name, pc, bo, hook)
 	h.w.ctx.Sim(res.Sim, simcheck.ScenarioHash(h.p), pc.Strategy)
 	return res
 }
